@@ -34,6 +34,8 @@ def opts_for(backend):
         o.narrow_counts = True
     if backend == "python":
         pass
+    if backend == "java":
+        o.array_modifier = True        # `x: T[+n]` behind a `_size_(x)` field (the Rust back end ignores it: not in the common class)
     if backend in ("java", "common"):
         o.no_body = True               # G1
         o.max_literal = (1 << 31) - 1  # C1
@@ -115,16 +117,22 @@ class Backend:
                 frng = random.Random(self.seed * 7919 + 11)
                 for text in GD.framed(frng, java_safe=self.backend == "java"):
                     self.add_text(text, origin="framed")
+                if self.backend == "python":
+                    for text in GD.nested_sized_payload(random.Random(self.seed * 7919 + 29)):
+                        self.add_text(text, origin="nested-sized-payload")
             if self.backend in ("python", "cxx"):
                 # groups and elements wider than 32 bits (own PRNG stream; the Java class leaves them out: KF-C19-int-chunk)
                 wrng = random.Random(self.seed * 4099 + 5)
                 for text in GD.wide(wrng, 2 if self.tier == "quick" else 12):
                     self.add_text(text, origin="wide")
-        tries = 0
-        while len(self.descs) < self.n_desc + len(self.extra_texts) and tries < 4 * self.n_desc:
+        floor = (20 if self.tier == "quick" else 80) if self.n_desc > 0 else 0
+        want = max(self.n_desc + len(self.extra_texts) - len(self.descs), floor)
+        tries, made = 0, 0
+        while made < want and tries < 4 * max(self.n_desc, floor):
             tries += 1
             text, g = GD.generate(self.rng, self.opts)
-            self.add_text(text, g)
+            if self.add_text(text, g) is not None:
+                made += 1
         for d in self.descs:
             for f in d["features"]:
                 self.run.hist("features", f)
